@@ -36,6 +36,9 @@ type AxisDesc struct {
 
 	// what the (simulated) kernel reports for the axis
 	Min, Max int32
+	// NoInfo: discovery could not read the axis ranges (it logs "Failed to fetch absinfos" and carries on): the
+	// device sees a 0..0 range while the events carry positions of the real range Min..Max
+	NoInfo bool
 }
 
 type SubKeys struct {
